@@ -94,4 +94,24 @@ theorem segment_in_polyhedron (B : Polyhedron) (hV : B.Valid) (s : Seg) :
   · rintro ⟨ha, hb⟩ x ⟨t, h0, h1, rfl⟩; exact ha.convex hb t h0 h1
   · intro h; exact ⟨h _ s.den_endpoints.1, h _ s.den_endpoints.2⟩
 
+
+/-- `ConvexPolygon in ConvexPolyhedron` (all vertices pass the face tests) ⇔ the whole polygon lies in the body -/
+theorem polygon_in_polyhedron (B : Polyhedron) (hV : B.Valid) (P : Polygon) :
+    B.containsPolygon P = true ↔ ∀ x, InHull P.pts x → InHull B.verts x := by
+  constructor
+  · intro h x hx
+    unfold Polyhedron.containsPolygon at h
+    rw [List.all_eq_true] at h
+    -- the face tests are linear: a convex combination of accepted points is accepted
+    let B' : Polyhedron := { B with verts := P.pts }
+    have hv' : B'.VertsInside := by
+      intro f hf p hp
+      have := h p hp
+      unfold Polyhedron.contains at this
+      rw [List.all_eq_true] at this
+      simpa using this f hf
+    have := Polyhedron.hull_subset_contains B' hv' x hx
+    exact (Polyhedron.contains_iff_hull B hV x).mp this
+  · exact polygon_in_polyhedron_partial B hV.verts_inside P
+
 end G3D.Props.C05
